@@ -29,7 +29,10 @@ def seeded_table():
         name = os.path.basename(os.path.dirname(p))
         fv = re.sub(r"\s+", " ", m.get("first_violation", ""))
         mm = re.search(r"class=(\S+)", fv)
-        rows.append("| %s | %s | %s | %s | %s |" % (name, m["property"], "yes" if m.get("confirmed") else "no", m.get("check_result", ""), ("`" + mm.group(1) + "`") if mm else ""))
+        last = ("`" + mm.group(1) + "`") if mm else ""
+        if m.get("note") and m.get("check_result") != "detected":
+            last = m["note"].split(":")[0]
+        rows.append("| %s | %s | %s | %s | %s |" % (name, m["property"], "yes" if m.get("confirmed") else "no", m.get("check_result", ""), last))
     return "\n".join(rows)
 
 
